@@ -106,6 +106,12 @@ class StrEval:
                 return (a == b) == (op == '==')
             if isinstance(a, Opaque) or isinstance(b, Opaque):
                 raise Unknown('arithmetic on %r, %r' % (a, b))
+            if op == '[]' and isinstance(a, str) and isinstance(b, int):
+                if 0 <= b < len(a):
+                    return a[b]
+                if b == len(a):
+                    return '\0'
+                raise Unknown('subscript %d of a string of length %d' % (b, len(a)))
             if op in ('+', '-') and isinstance(a, str) and len(a) == 1 and isinstance(b, (int, str)):
                 a = ord(a)
             if op in ('+', '-') and isinstance(b, str) and len(b) == 1 and isinstance(a, int):
@@ -222,7 +228,35 @@ class StrEval:
                 raise Returned(self.ev(f, kids(st)[0], env, depth) if kids(st) else None)
             elif k == 'NullStmt':
                 continue
-            elif k in ('ForStmt', 'WhileStmt', 'DoStmt', 'SwitchStmt', 'CXXForRangeStmt'):
+            elif k == 'SwitchStmt':
+                v = self.ev(f, kids(st)[0], env, depth)
+                if isinstance(v, str) and len(v) == 1:
+                    v = ord(v)
+                if isinstance(v, Opaque) or not isinstance(v, int):
+                    raise Unknown('switch on %r' % (v,))
+                body = kids(st)[-1]
+                flat = []
+                for c_ in kids(body):
+                    labels, cur = [], c_
+                    while cur is not None and cur['k'] in ('CaseStmt', 'DefaultStmt'):
+                        labels.append(cur.get('casev') if cur['k'] == 'CaseStmt' else 'default')
+                        nxt = [x for x in kids(cur) if x['k'] not in ('ImplicitCastExpr', 'IntegerLiteral', 'ConstantExpr', 'DeclRefExpr', 'CharacterLiteral')]
+                        cur = nxt[-1] if nxt else None
+                    flat.append((labels or None, cur))
+                all_l = [l for ls, _ in flat if ls for l in ls]
+                target = v if v in all_l else ('default' if 'default' in all_l else None)
+                on = False
+                sel = []
+                for ls, c_ in flat:
+                    if ls and target in ls:
+                        on = True
+                    if on and c_ is not None:
+                        if c_['k'] == 'BreakStmt':
+                            break
+                        sel.append(c_)
+                if self.run(f, sel, env, depth, stop) is False:
+                    return False
+            elif k in ('ForStmt', 'WhileStmt', 'DoStmt', 'CXXForRangeStmt'):
                 raise Unknown('statement %s' % k)
             else:
                 # expression statement: assignment to a local, or a modelled member call (pop_back)
